@@ -31,6 +31,8 @@ pub enum Where {
     Item(usize),
     /// the span must lie inside this item's value
     Value(usize),
+    /// inside one element of this item's array value
+    Element(usize, usize),
     /// the span must lie inside this item's name
     Name(usize),
     /// inside the attribute with this index (element-level inputs)
@@ -155,13 +157,52 @@ impl<'a> Interp<'a> {
                 Kind::Nv(_) => Err(vec![leaf(LeafKind::BadValue, Where::Value(it.id), &it.name)]),
                 _ => Err(vec![leaf(LeafKind::BadValue, Where::Item(it.id), &it.name)]),
             },
+            Ty::Bytes => {
+                let bad_value = || Err(vec![leaf(LeafKind::BadValue, Where::Value(it.id), &it.name)]);
+                let elem = |l: &Lit| -> Option<u8> {
+                    match l {
+                        Lit::Int { digits, .. } => digits.parse::<u8>().ok(),
+                        Lit::Str { value, .. } => value.parse::<u8>().ok(),
+                        _ => None,
+                    }
+                };
+                match &it.kind {
+                    Kind::Nv(Lit::Array(elems)) => {
+                        // fail-fast: the first element that is not a u8 ends the conversion; its error sits on the element
+                        let mut out = vec![];
+                        for (k, e) in elems.iter().enumerate() {
+                            match elem(e) {
+                                Some(v) => out.push(json!(v)),
+                                None => return Err(vec![leaf(LeafKind::BadValue, Where::Element(it.id, k), &it.name)]),
+                            }
+                        }
+                        Ok(Value::Array(out))
+                    }
+                    // a quoted array: the generator only writes plain decimal elements
+                    Kind::Nv(Lit::Str { value, .. }) => {
+                        let t = value.trim();
+                        let Some(inner) = t.strip_prefix('[').and_then(|x| x.strip_suffix(']')) else { return bad_value() };
+                        let mut out = vec![];
+                        let parts: Vec<&str> = if inner.trim().is_empty() { vec![] } else { inner.split(',').collect() };
+                        for p in parts {
+                            match p.trim().parse::<u8>() {
+                                Ok(v) => out.push(json!(v)),
+                                Err(_) => return bad_value(),
+                            }
+                        }
+                        Ok(Value::Array(out))
+                    }
+                    Kind::Nv(_) => bad_value(),
+                    _ => Err(vec![leaf(LeafKind::BadValue, Where::Item(it.id), &it.name)]),
+                }
+            }
             Ty::Recv(id) | Ty::BoxRecv(id) => self.recv_from_meta(&self.recvs[*id], it),
         }
     }
 
     pub fn from_none(&self, ty: &Ty) -> Option<Value> {
         match ty {
-            Ty::Sc(_) | Ty::Map(_) | Ty::PathList => None,
+            Ty::Sc(_) | Ty::Map(_) | Ty::PathList | Ty::Bytes => None,
             Ty::Opt(_) => Some(Value::Null),
             Ty::Recv(id) | Ty::BoxRecv(id) => {
                 let r = &self.recvs[*id];
